@@ -68,8 +68,18 @@ _shard = kcommon.make_run(__name__, "observe", extra_ops=kcommon.long_comment_op
 _chain = kcommon.make_chain_run(__name__, "observe", extra_ops=kcommon.long_comment_ops, faults=True)
 
 
+def _judge_holes(ctx):
+    bad = sound_violation(ctx["data"], ctx["n"])
+    return [(bad[0], bad[1])] if bad else []
+
+
+def _holes(_):
+    return kcommon.hole_removal_shard(PROP, _judge_holes)
+
+
 def run(tier):
     acc = kcommon.run_configs(__name__, tier)
+    acc.merge(core.pmap(__name__, "_holes", [0]))
     # straight-line histories in ONE context on ONE object (in-memory table state that a restore from
     # file bytes cannot carry, e.g. aliased entries), incl. tables that keep >= 2 unused slots
     acc.merge(core.pmap(__name__, "_chain", [c.to_witness() for c in kcommon.chain_configs(tier, deep=True)]))
@@ -77,4 +87,6 @@ def run(tier):
 
 
 def replay(w):
+    if w.get("holes"):
+        return kcommon.hole_replay(w, PROP, _judge_holes)
     return kcommon.replay_any(w, observe)
